@@ -3,6 +3,9 @@ use qv::with_prop;
 use serde_json::json;
 use std::collections::HashMap;
 
+#[global_allocator]
+static GLOBAL: qv::alloc::Counting = qv::alloc::Counting;
+
 fn parse_args() -> (String, HashMap<String, String>) {
     let mut args = std::env::args().skip(1);
     let cmd = args.next().unwrap_or_else(|| "help".into());
